@@ -1036,6 +1036,21 @@ func solveByComponents(ss *SolverSet, asserts []*Term, allVars []*Term, to int, 
 var sampleStrings = []string{"a", "b", "c", "d", "x", "y", "p", "q", "", "\n", "a\nb", "\"", "`", "\\", "a/d", "b/d", "c/d", "/d", "/go", " ", "1", "a1", "a\r\nb", "math/rand/v2", "//", "/*", "*/", "\xff", "\x00"}
 var identStrings = []string{"a", "b", "c", "d", "x", "y", "p", "q", "a1", "k", "v", "m"}
 
+// identifier-like texts first, then the rest
+var sampleStringsAll = func() []string {
+	seen := map[string]bool{}
+	var out []string
+	for _, l := range [][]string{identStrings, sampleStrings} {
+		for _, x := range l {
+			if !seen[x] {
+				seen[x] = true
+				out = append(out, x)
+			}
+		}
+	}
+	return out
+}()
+
 var sampleInts = func() []string {
 	out := []string{"0", "1", "2", "3", "255", "-1", "65", "128", "1000000"}
 	for _, f := range []float64{1, -1, 1.5, -0.5, 100, 1e6, -1e6, -2.5e6, 1e20, -1e20, 1e21, 1e-7, -1e-7, 123456789, -123456789} {
@@ -1116,6 +1131,58 @@ func sampleModel(base []*Term, shadow []*Term, wdefs map[*Term]*Term, nts []*Ter
 		fmt.Fprintf(os.Stderr, "sample debug: %d conjuncts, named=%d all=%v ok=%v firstFalse=%v\n", len(base), len(nts), all, ok, ff)
 	}
 	t0 := time.Now()
+	// a small input space is enumerated completely (deterministic, no unlucky runs); a larger one is
+	// sampled pseudo-randomly
+	domain := func(t *Term) []string {
+		switch t.Sort {
+		case SStr:
+			return sampleStringsAll
+		case SBool:
+			return []string{"false", "true"}
+		}
+		return sampleInts
+	}
+	prod := 1
+	for _, t := range nts {
+		prod *= len(domain(t))
+		if prod > 40000 {
+			prod = 0
+			break
+		}
+	}
+	if prod > 0 && len(nts) > 0 {
+		for idx := 0; idx < prod; idx++ {
+			if idx%64 == 63 && (time.Now().After(deadline) || time.Since(t0) > 8*time.Second) {
+				break
+			}
+			env := newEvalEnv()
+			env.defs = wdefs
+			vals := make([]string, len(nts))
+			r := idx
+			for i, t := range nts {
+				d := domain(t)
+				vals[i] = d[r%len(d)]
+				if t.Sort == SStr {
+					vals[i] = "s:" + vals[i]
+				}
+				r /= len(d)
+				env.vars[t] = vals[i]
+			}
+			all, ok, _ := env.evalAll(base)
+			if ok && all {
+				if ex, ok2 := env.evalStrings(extra); ok2 {
+					if os.Getenv("GOSMT_DEBUG_SAMPLE") != "" {
+						fmt.Fprintf(os.Stderr, "sample debug: enumeration hit at %d/%d after %v\n", idx, prod, time.Since(t0))
+					}
+					return vals, ex, true
+				}
+			}
+		}
+		if os.Getenv("GOSMT_DEBUG_SAMPLE") != "" {
+			fmt.Fprintf(os.Stderr, "sample debug: enumeration of %d found nothing after %v\n", prod, time.Since(t0))
+		}
+		return nil, nil, false
+	}
 	for try := 0; try < tries; try++ {
 		if try%32 == 31 && (time.Now().After(deadline) || time.Since(t0) > 5*time.Second) {
 			break
@@ -1143,9 +1210,15 @@ func sampleModel(base []*Term, shadow []*Term, wdefs map[*Term]*Term, nts []*Ter
 		if ok && all {
 			ex, ok2 := env.evalStrings(extra)
 			if ok2 {
+				if os.Getenv("GOSMT_DEBUG_SAMPLE") != "" {
+					fmt.Fprintf(os.Stderr, "sample debug: hit at try %d after %v\n", try, time.Since(t0))
+				}
 				return vals, ex, true
 			}
 		}
+	}
+	if os.Getenv("GOSMT_DEBUG_SAMPLE") != "" {
+		fmt.Fprintf(os.Stderr, "sample debug: no hit after %v\n", time.Since(t0))
 	}
 	return nil, nil, false
 }
